@@ -26,6 +26,7 @@ Definition pid : Type := nat * nat.          (* (address, id) *)
 Inductive msg :=
 | EUser (n : nat)                                  (* any user payload / user event *)
 | EStopped (p : pid)                               (* ActorStoppedEvent{PID}: published by the process layer *)
+| ELife (k : nat) (p : pid)                        (* ActorInitializedEvent (k = 0) / ActorStartedEvent (k = 1) of a spawn *)
 | EDead (t : pid) (m : msg) (s : option pid)       (* DeadLetterEvent{Target, Message, Sender} *)
 | EMissing (t : pid) (m : msg) (s : option pid).   (* EngineRemoteMissingEvent{Target, Message, Sender} *)
 Global Instance msg_eq_dec : EqDecision msg.
@@ -120,6 +121,14 @@ Definition deliveries_to (p : pid) (l : list (pid * msg * option pid)) : list ms
 Definition delivered_to (p : pid) (fw : list (pid * outcome)) : list msg :=
   deliveries_to p (omap (λ x, outcome_delivery x.2) fw).
 
+(* what is handed to [p] — pushed on its inbox if it is a local actor, given to
+   the remote if it lives on another node *)
+Definition handed_to (p : pid) (fw : list (pid * outcome)) : list msg :=
+  omap (λ x, match x.2 with
+             | ToInbox q e _ | ToRemote q e _ => if decide (q = p) then Some e else None
+             | _ => None
+             end) fw.
+
 (* the events a forward list feeds back to the event stream *)
 Definition fed_back (fw : list (pid * outcome)) : list msg := omap (λ x, outcome_event x.2) fw.
 
@@ -131,6 +140,30 @@ Fixpoint between (p : pid) (on : bool) (h : list esmsg) : list msg :=
   | Sub q :: h' => between p (on || bool_decide (q = p)) h'
   | Unsub q :: h' => between p (on && negb (bool_decide (q = p))) h'
   | Ev e :: h' => (if on then [e] else []) ++ between p on h'
+  end.
+
+(* the same for a subscriber whose reachability changes along the history
+   ([ok v p]: an event handled under view [v] gets through to [p]): it receives
+   the events between a [Sub p] and the next [Unsub p] while it can be reached;
+   the first event that cannot reach it ends the subscription (D6 repair) *)
+Fixpoint between_g (ok : view → pid → bool) (p : pid) (on : bool) (h : list (view * esmsg)) : list msg :=
+  match h with
+  | [] => []
+  | (_, Sub q) :: h' => between_g ok p (on || bool_decide (q = p)) h'
+  | (_, Unsub q) :: h' => between_g ok p (on && negb (bool_decide (q = p))) h'
+  | (v, Ev e) :: h' => (if on && ok v p then [e] else []) ++
+                       between_g ok p (on && negb (unreachable v p)) h'
+  end.
+Definition reachable (v : view) (p : pid) : bool := negb (unreachable v p).
+Definition liveb (v : view) (p : pid) : bool := is_local v p && registered v p.
+
+(* [p] is alive whenever an event is handled while it is subscribed *)
+Fixpoint live_while_on (p : pid) (on : bool) (h : list (view * esmsg)) : Prop :=
+  match h with
+  | [] => True
+  | (_, Sub q) :: h' => live_while_on p (on || bool_decide (q = p)) h'
+  | (_, Unsub q) :: h' => live_while_on p (on && negb (bool_decide (q = p))) h'
+  | (v, Ev _) :: h' => (on = true → liveb v p = true) ∧ live_while_on p on h'
   end.
 
 Definition events_of (h : list esmsg) : list msg :=
@@ -274,25 +307,87 @@ Definition wq_proc_pinned (v : view) (es : pid) (st : list pid * list msg * nat)
 
 Definition unum (e : msg) : nat := match e with EUser n => n | _ => 4999 end.
 
-(** *** C12, sequential histories: PID value [p] is (0, p); every PID value
-    is available through several objects ([obj]), which the repaired code
-    must ignore.  All [np] PIDs are live recording actors. *)
-Inductive hop := HSub (p obj : nat) | HUnsub (p obj : nat) | HEv (n : nat).
+(** *** C12, sequential histories.  PID value [p < 50] is the local (0, p),
+    a recording actor; [p >= 50] is (1, p - 50): the same id behind a foreign
+    address (the engine then has a remote, which records what it is given).
+    Every PID value is available through several objects ([obj]), which the
+    repaired code must ignore.  [HStop p] poisons local actor [p] (it is
+    unregistered, then its ActorStoppedEvent is published), [HSpawn p] spawns
+    a new recording actor under the same id (registered, then its
+    ActorInitializedEvent and ActorStartedEvent are published); each step is
+    followed by quiescence.  Only user events ([HEv]) are logged. *)
+Inductive hop := HSub (p obj : nat) | HUnsub (p obj : nat) | HEv (n : nat) | HStop (p : nat) | HSpawn (p : nat).
 
 Definition es12 : pid := (0, 99).
-Definition v12 (np : nat) : view := {| v_addr := 0; v_remote := false; v_reg := 99 :: seq 0 np |}.
-Definition hop_msg (h : hop) : esmsg :=
-  match h with HSub p _ => Sub (0, p) | HUnsub p _ => Unsub (0, p) | HEv n => Ev (EUser n) end.
+Definition pid12 (p : nat) : pid := if decide (p < 50) then (0, p) else (1, p - 50).
+Definition v12 (remote : bool) (reg : list nat) : view := {| v_addr := 0; v_remote := remote; v_reg := reg |}.
+Definition reg12 (np : nat) : list nat := 99 :: seq 0 np.
 
-(* the machine *)
-Definition model12 (np : nat) (hist : list hop) : list (list nat) :=
-  let fw := (es_run es12 [] ((λ h, (v12 np, hop_msg h)) <$> hist)).2 in
-  (λ i, unum <$> delivered_to (0, i) fw) <$> seq 0 np.
-(* the property: per actor, the events between its Sub and the next Unsub, by value *)
-Definition spec12 (np : nat) (hist : list hop) : list (list nat) :=
-  (λ i, unum <$> between (0, i) false (hop_msg <$> hist)) <$> seq 0 np.
-Definition oracle12_on (np : nat) (hist : list hop) (obs : list (list nat)) : bool :=
-  bool_decide (obs = spec12 np hist).
+(* the history the event stream handles: every message with the registry as
+   it is then.  The dead letters that come back from a forward to a stopped
+   subscriber are events too; they are left out here: they are handled right
+   after the event that caused them, which has already dropped every
+   unreachable subscriber (C09_dead_letter_exact: [w_subs st' = live_subs ..]),
+   so they reach live subscribers only (who do not log them) and change
+   nothing. *)
+Fixpoint hist12 (remote : bool) (reg : list nat) (ops : list hop) : list (view * esmsg) :=
+  match ops with
+  | [] => []
+  | HSub p _ :: ops' => (v12 remote reg, Sub (pid12 p)) :: hist12 remote reg ops'
+  | HUnsub p _ :: ops' => (v12 remote reg, Unsub (pid12 p)) :: hist12 remote reg ops'
+  | HEv n :: ops' => (v12 remote reg, Ev (EUser n)) :: hist12 remote reg ops'
+  | HStop p :: ops' =>
+      let reg' := filter (λ i, i ≠ p) reg in
+      (v12 remote reg', Ev (EStopped (0, p))) :: hist12 remote reg' ops'
+  | HSpawn p :: ops' =>
+      let reg' := p :: reg in
+      (v12 remote reg', Ev (ELife 0 (0, p))) :: (v12 remote reg', Ev (ELife 1 (0, p))) :: hist12 remote reg' ops'
+  end.
+
+Definition users (l : list msg) : list nat := omap (λ e, match e with EUser n => Some n | _ => None end) l.
+
+(* the machine: what is handed to the local actors, and to the remote for the
+   same ids behind the foreign address *)
+Definition model12 (remote : bool) (np : nat) (ops : list hop) : list (list nat) * list (list nat) :=
+  let fw := (es_run es12 [] (hist12 remote (reg12 np) ops)).2 in
+  ((λ i, users (handed_to (pid12 i) fw)) <$> seq 0 np,
+   (λ i, users (handed_to (pid12 (50 + i)) fw)) <$> seq 0 np).
+
+(* the property, per PID value [p]: [reach] — the actor is alive (for a foreign
+   PID: the engine has a remote); [on] — subscribed.  Events broadcast after its
+   Subscribe and before its Unsubscribe, by value, each once, in order; an actor
+   that stops is no subscriber any more (its own ActorStoppedEvent cannot be
+   delivered), an actor spawned again under the id is one only once it
+   subscribes again; a PID subscribed while nobody is registered under it is
+   dropped by the first event that cannot be delivered *)
+Fixpoint spec12_p (p : nat) (reach on : bool) (ops : list hop) : list nat :=
+  match ops with
+  | [] => []
+  | HSub q _ :: ops' => spec12_p p reach (on || bool_decide (q = p)) ops'
+  | HUnsub q _ :: ops' => spec12_p p reach (on && negb (bool_decide (q = p))) ops'
+  | HEv n :: ops' => (if on && reach then [n] else []) ++ spec12_p p reach (on && reach) ops'
+  | HStop q :: ops' =>
+      let reach' := reach && negb (bool_decide (q = p) && bool_decide (p < 50)) in
+      spec12_p p reach' (on && reach') ops'
+  | HSpawn q :: ops' =>
+      let reach' := reach || (bool_decide (q = p) && bool_decide (p < 50)) in
+      spec12_p p reach' (on && reach') ops'
+  end.
+Definition spec12 (remote : bool) (np : nat) (ops : list hop) : list (list nat) * list (list nat) :=
+  ((λ i, spec12_p i true false ops) <$> seq 0 np,
+   (λ i, spec12_p (50 + i) remote false ops) <$> seq 0 np).
+Definition oracle12_on (remote : bool) (np : nat) (ops : list hop) (obs robs : list (list nat)) : bool :=
+  bool_decide ((obs, robs) = spec12 remote np ops).
+
+(* histories the generator may produce: at most 50 PID values; only live local
+   actors are stopped, only stopped ones are spawned again *)
+Fixpoint wf12 (np : nat) (alive : list nat) (ops : list hop) : bool :=
+  match ops with
+  | [] => true
+  | HStop p :: ops' => bool_decide (p ∈ alive) && wf12 np (filter (λ i, i ≠ p) alive) ops'
+  | HSpawn p :: ops' => bool_decide (p < np) && bool_decide (p ∉ alive) && wf12 np (p :: alive) ops'
+  | _ :: ops' => wf12 np alive ops'
+  end.
 
 (** *** C12, concurrent broadcasters.  [nsubs] actors (ids 0..) subscribe,
     then broadcaster [s] broadcasts the events [100*s + 0 .. 100*s + c_s - 1],
